@@ -22,7 +22,10 @@ RULE = ('random API-built designs from gen_designs (3..16 ops, registers, memori
         'balanced equal-delay trees that hit cp_limit) x integer gate_delay_funcs tables '
         '(unit / random constant / width-dependent / free wires; r and @ negative) x cp_limit in '
         '{1,2,3,100} x tech/ffoverhead x up to 10 (quick) or 30 (thorough) (src,dst) queries per design '
-        '(Input->Output, reachable pairs, src=dst loops, unreachable pairs).  A case is one design + '
+        '(Input->Output, reachable pairs, src=dst loops, unreachable pairs).  Every other case is analysed '
+        'while its Block is NOT the working block (working block reset and an unrelated decoy design '
+        're-using its input names built first; block= passed, fanout(w) on the foreign wires), the others '
+        'through the default working-block route; every 4th query passes dst_nets.  A case is one design + '
         'table; distinct by (nets, table, queries); non-trivial when the design has >= 3 combinational '
         'nets, max_length > 0 and at least one query has a path')
 IMPORTS = 'From PyRTL Require Import Analysis.C17Harness.'
@@ -184,6 +187,27 @@ def shaped(rng, kind):
 
 
 SHAPES = ['f18', 'diamond', 'diamond', 'ring', 'srcloop', 'memloop', 'memloop', 'tree']
+
+
+def make_foreign(block):
+    """Make `block` a NON-working block: reset the working block and build an unrelated decoy
+    design in it that re-uses the names (and widths) of block's inputs with a different
+    fan-out.  An analysis that consults working_block() instead of the block it was given (or
+    the wire's own block) then sees different nets for the same names."""
+    real = sorted(block.wirevector_set, key=lambda w: w.name)
+    pyrtl.reset_working_block()
+    acc = None
+    for w in [w for w in real if isinstance(w, pyrtl.Input)][:3]:
+        x = pyrtl.Input(len(w), w.name)
+        t = (x & x) | ~x
+        acc = t if acc is None else pyrtl.concat(acc, t)
+    if acc is None:
+        acc = ~pyrtl.Input(1, 'decoy_in')
+    r = pyrtl.Register(1, 'decoy_r')
+    r.next <<= acc[0] ^ r
+    o = pyrtl.Output(len(acc) + 1, 'decoy_out')
+    o <<= pyrtl.concat(r, acc)
+    assert pyrtl.working_block() is not block
 
 
 def build(ctx, i):
@@ -386,11 +410,19 @@ def net_strs(nets):
 
 def analyse(ctx, i, found, exprs, cases, fq_exprs, fq_cases):
     kind, block, rng = build(ctx, i)
+    # every other case is analysed while it is NOT the working block (block= passed explicitly;
+    # fanout(w) must use w's own block); the rest go through the default working-block route
+    foreign = (i % 2 == 1)
+    if foreign:
+        make_foreign(block)
+    bk = {'block': block} if foreign else {}
     style, tab = make_table(rng)
     cp_limit = rng.choice([1, 2, 3, 100, 100])
     nq = 10 if ctx.tier == 'quick' else 30
     g = Graph(block)
     base_rep = {'seed': ctx.seed, 'case': i, 'kind': kind, 'tier': ctx.tier,
+                'queried_while': ('NOT the working block (reset_working_block() + unrelated design built '
+                                  'after it; block= passed)' if foreign else 'working block (no block= argument)'),
                 'nets': net_strs(g.nets), 'delay_table(op:(a,b) => a+b*width)': {k: list(v) for k, v in tab.items()}}
 
     def viol(sig, what, extra):
@@ -400,7 +432,7 @@ def analyse(ctx, i, found, exprs, cases, fq_exprs, fq_cases):
 
     # ---- implementation
     try:
-        ta = TimingAnalysis(block=block, gate_delay_funcs=delay_funcs(tab))
+        ta = TimingAnalysis(gate_delay_funcs=delay_funcs(tab), **bk)
     except Exception as e:
         viol('timing:raises', 'TimingAnalysis raised %r on an API-built design' % (e,), {})
         return
@@ -420,9 +452,14 @@ def analyse(ctx, i, found, exprs, cases, fq_exprs, fq_cases):
     impl_fan = [pa.fanout(w) for w in dump.wires]
     queries = pick_queries(rng, block, g, nq)
     impl_paths = []
-    for s, d in queries:
-        r = pyrtl.paths(s, d, block=block)
+    for qi, (s, d) in enumerate(queries):
+        if qi % 4 == 3:   # caller-supplied dst_nets (paths() strips the Outputs from it)
+            r = pyrtl.paths(s, d, dst_nets=block.net_connections()[1], **bk)
+        else:
+            r = pyrtl.paths(s, d, **bk)
         impl_paths.append(r[s][d])
+    if foreign and pyrtl.working_block() is block:
+        viol('working-block-changed', 'an analysis changed the working block', {})
 
     # ---- search: implementation vs the graph-theoretic definitions
     budget = [200000]
@@ -529,7 +566,7 @@ def analyse(ctx, i, found, exprs, cases, fq_exprs, fq_cases):
         for k in (1, 2):
             os.environ['PYRTL_VERIF_ITER_SEED'] = '%d-%d' % (i, k)
             try:
-                tb = TimingAnalysis(block=block, gate_delay_funcs=delay_funcs(tab))
+                tb = TimingAnalysis(gate_delay_funcs=delay_funcs(tab), **bk)
             finally:
                 del os.environ['PYRTL_VERIF_ITER_SEED']
             orders.add(tuple(nix[n] for n in net_order(block, tb) if n.op not in 'r@'))
@@ -538,7 +575,7 @@ def analyse(ctx, i, found, exprs, cases, fq_exprs, fq_cases):
         ctx.count('distinct topological orders tried', len(orders))
 
     # ---- default (float) table: delay-free facts only
-    td = TimingAnalysis(block=block)
+    td = TimingAnalysis(**bk)
     dm = td.timing_map
     okd = all(dm[w] == 0 for w in dm if isinstance(w, SRC_TYPES)) and td.max_length() == max(dm.values())
     for n in g.nets:
@@ -584,6 +621,7 @@ def analyse(ctx, i, found, exprs, cases, fq_exprs, fq_cases):
                       key=(tuple(net_strs(dump.nets)), tuple(sorted(tab.items())),
                            tuple((s.name, d.name) for s, d in queries))))
     ctx.count('design kind', kind)
+    ctx.count('queried while', 'not the working block' if foreign else 'working block')
     ctx.count('delay table style', style)
     ctx.count('nets', min(len(g.nets) // 5 * 5, 40))
     ctx.count('cp_limit reached', limit_hit)
